@@ -124,3 +124,8 @@ REGISTRY.update({
     "C29": _mc("explicit-state enumeration of inputs (two numberings) x deleted-locus patterns x mutation placements (one above every node in every tree) x missing-data patterns x node-metadata schemas; per-position tree comparison, genotype, contiguity and idempotence oracles",
                "Every bounded ARG with disjoint nodes (absent in a middle locus) and every ARG with each locus / loci {0,2} deleted x 2 mutation placements x 3 schemas, plus every (sample, locus) isolation with a mutation on the isolated sample: split_disjoint_nodes must return, keep each local tree (copies mapped back), keep ids of leftmost pieces, copy node attributes + split flag + unsplit_node_id, keep sites and genotypes, leave no gapped ancestry and be idempotent."),
 })
+
+REGISTRY.update({
+    "C28": _mc("explicit-state enumeration of multi-locus inputs x missing-data patterns x every subset of site-bearing loci x option product; genotype / clade-per-position / removed-region / simplification / contiguity oracles",
+               "Every bounded multi-locus ARG (coordinates x10, thorough also x2^20) x every non-empty subset of loci carrying sites x (minimum_gap x erase_flanks | delete_intervals as list or ndarray) x split_disjoint x filter_sites, plus every (sample, locus) isolation: kept sites, samples, genotypes and node times preserved; local trees identical outside and empty inside exactly the specified intervals; output already simplified; no gapped ancestry with split_disjoint."),
+})
